@@ -196,7 +196,7 @@ class PhaseMonitor(Monitor):
 
 
 def make_monitors():
-    return [driver.Observer(), PhaseMonitor()]
+    return [driver.Observer(), driver.Interleaver(), PhaseMonitor()]
 
 
 def gen_kwargs(rng):
